@@ -651,7 +651,9 @@ pub fn run_c06(o: &Opts) -> i32 {
             24 => format!("{} -> {} {} - {} {}", src, c2, b, *rng.pick(&["1", "1|3", "0.25", "7"]), b),
             25 => format!("{} -> {} {} mod {} {}", src, *rng.pick(&["7", "10", "2.5", "100"]), b, *rng.pick(&["4", "3", "0.75", "32"]), b),
             26 => format!("{} -> {} {} {}", coef_pos(&mut rng), *rng.pick(&["6", "12", "255", "10"]), *rng.pick(&["and", "or", "xor"]), *rng.pick(&["3", "5", "12", "128"])),
-            27 => format!("{} -> ({}^2)^0.5", src, b),
+            // (units of negative value - delisle_absolute, g0000000 ... - have their own fixed lines below: for them
+            // the root of the square is a listed known finding)
+            27 => if db.lookup(&b).map(|v| v.value < Numeric::from(0)).unwrap_or(true) { format!("{} -> {}", src, b) } else { format!("{} -> ({}^2)^0.5", src, b) },
             28 => format!("{} -> {} {}", src, *rng.pick(&["4^0.5", "4^(1|2)", "8^(1|3)", "2^1.0", "2^-1"]), b),
             // a term of a product that carries both a constant and a unit (group, power of a group, quotient)
             18 => format!("{} -> {} ({} {})", src, c, c2, b),
@@ -682,6 +684,11 @@ pub fn run_c06(o: &Opts) -> i32 {
         };
         let src_text = text.split("->").next().unwrap().trim().to_string();
         emit(&text, &src_text, &mut total, &mut samples);
+    }
+    // the even root of an even power of a unit of negative value (see known_findings.json)
+    for text in ["174 stdtemp -> (delisle_absolute^2)^0.5"] {
+        let src_text = text.split("->").next().unwrap().trim().to_string();
+        emit(text, &src_text, &mut total, &mut samples);
     }
     drop(emit);
     req.flush().unwrap(); aux.flush().unwrap();
